@@ -38,6 +38,20 @@ theorem roundtrip_all_paths_partial (env : Env) (hwf : WFEnv env) (hids : WFIds 
     decodeS env fuel t (enc w ++ rest) = .ok (g, rest) :=
   roundtrip_all_paths env hwf hids fuel t g w rest hdec htw
 
+/-- Serialisation loses nothing: two values in decoded form whose serialised bytes coincide are the
+same value — for every schema, type and pair of values. -/
+theorem serialisation_injective (env : Env) (hwf : WFEnv env) (hids : WFIds env) (fuel : Nat) (t : Ty)
+    (g₁ g₂ : GVal) (w₁ w₂ : WValue)
+    (hd₁ : decodedV env fuel t g₁ = true) (hd₂ : decodedV env fuel t g₂ = true)
+    (h₁ : toWire env fuel t g₁ = .ok w₁) (h₂ : toWire env fuel t g₂ = .ok w₂)
+    (hb : enc w₁ = enc w₂) : g₁ = g₂ := by
+  have r₁ := (roundtrip_all_paths_partial env hwf hids fuel t g₁ w₁ [] hd₁ h₁).2.2.2.2
+  have r₂ := (roundtrip_all_paths_partial env hwf hids fuel t g₂ w₂ [] hd₂ h₂).2.2.2.2
+  rw [hb, r₂] at r₁
+  injection r₁ with r₁
+  injection r₁ with r₁ _
+  exact r₁.symm
+
 /-- A reference encoding may list the fields of a struct in any order: for wire structs whose field
 identifiers are pairwise different, `FromWire` returns the same value for every permutation of the
 fields — and so do the streaming `Decode` and the lazy value path on the permuted encoding. -/
